@@ -45,7 +45,7 @@ class HelperStub:
         assert chunk.dtype == symnp._F8, "kernel requires float64 chunk"
         rows = [tuple(chunk.a[i]) for i in range(chunk.shape[0])]
         self.ll_calls.append(rows)
-        out = [core.uf("LL", *r) for r in rows]
+        out = [ll_of(r) for r in rows]
         return symnp.SymArray(symnp._obj(out), symnp._F8) if out else symnp.zeros((0,))
 
     def batch_get_posterior_samples(self, chunk, n_lin, rng):
@@ -205,14 +205,22 @@ def observe_samples(samples, n_lin_cols=2):
     return out
 
 
+NEGINF_P = set()     # names of the library P cells whose likelihood is -inf in the current shape
+
+
 def ll_of(row):
+    """likelihood of a (library) row: LL(row) uninterpreted, or -inf for the rows the shape designates"""
+    p = row[0]
+    if NEGINF_P and core.is_sym(p) and str(z3.simplify(core.lift(p))) in NEGINF_P:
+        return symnp.NonFinite("-inf")
     return core.uf("LL", *row)
 
 
 def spec_accept(lls, vs):
     """property rule: keep j iff ll_j - max_k ll_k > v_j  (u_j = exp(v_j))  -> list of z3 Bool"""
-    mx = core.sym_max(lls)
-    return [core.lift((l - mx) > v) for l, v in zip(lls, vs)]
+    fin = [l for l in lls if not isinstance(l, symnp.NonFinite)]
+    mx = core.sym_max(fin)
+    return [z3.BoolVal(False) if isinstance(l, symnp.NonFinite) else core.lift((l - mx) > v) for l, v in zip(lls, vs)]
 
 
 def stream_vs(world, key=("root",)):
